@@ -1,5 +1,94 @@
-import SudsModel.ArgParser
+import SudsModel.Lemmas.ArgParser4
+/-!
+# C08 — Call arguments bind to parameters like Python arguments, or fail loudly
+
+Model: `SudsModel/ArgParser.lean` (`run` = `_ArgParser.__call__` on the frame stack; `spec` = the
+recursive rule over the parameter tree). Lemmas: `SudsModel/Lemmas/ArgParser0..4.lean`.
+-/
 namespace Suds.Props.C08
 open Suds.ArgParser
-example : True := trivial
+
+/-- **Main theorem.** For every parameter forest of any shape and depth whose sibling containers
+are distinct objects, every positional/keyword argument vector and both settings of
+`extraArgumentErrors`, the frame-stack parser (fed the flattened `(name, optional, ancestry)`
+list, exactly what the bindings hand to `parse_args`) returns what the recursive rule returns:
+the same required/allowed counts (sum over sequences, minimum over the visible branches of a
+choice), the same `(name, in_choice_context, value)` sequence handed to the marshaller, and the
+same error (kind and reported numbers). -/
+theorem parse_refines_spec (strict : Bool) (kids : List (PT PDef)) (args : List Val)
+    (kwargs : List (String × Val)) (hwf : PT.wf.wfKids kids) (htop : TopOK kids) :
+    runForest strict kids args kwargs = spec strict kids args kwargs :=
+  run_eq_spec strict kids args kwargs hwf htop
+
+/-- With extra-argument checking disabled no call is rejected (any parameter list, any arguments). -/
+theorem no_errors_when_disabled (leaves : List Leaf) (args : List Val) (kwargs : List (String × Val)) :
+    ∃ r, run false leaves args kwargs = .ok r := by
+  simp [run, finish]
+
+/-- With checking enabled a call is rejected exactly when a choice got two values, a keyword is
+left over (unknown, or naming a parameter that already has a value) or a positional is left over. -/
+theorem rejected_iff (kids : List (PT PDef)) (args : List Val) (kwargs : List (String × Val)) :
+    let b := bind ((flatForest kids).map (·.2.1)) args kwargs
+    let acc := summForest (fillForest (fun (d : PDef) (x : Bool × Val) => (d.2, x.2.isSome)) (false, none) kids b.1)
+    (∃ e, spec true kids args kwargs = .error e) ↔ (acc.conflict = true ∨ b.2.2 ≠ [] ∨ b.2.1 ≠ []) := by
+  intro b acc
+  simp only [spec, finish, Bool.true_and]
+  by_cases hc : acc.conflict = true
+  · simp [acc, b] at hc ⊢; simp [hc]
+  · have hc' : acc.conflict = false := by simpa using hc
+    simp only [acc, b] at hc' ⊢
+    rw [hc']
+    simp only [Bool.false_eq_true, if_false, if_true, false_or]
+    split
+    · rename_i k v rest heq
+      simp [heq]
+      split <;> simp
+    · rename_i heq
+      simp [heq]
+      by_cases ha : (bind (List.map (fun x => x.snd.fst) (flatForest kids)) args kwargs).2.1 = []
+      · simp [ha]
+      · simp [ha]
+
+/-- The error for a surplus positional reports the counts of the recursive rule and the number of
+values given. -/
+theorem positional_error_counts (kids : List (PT PDef)) (args : List Val) (kwargs : List (String × Val))
+    (r a g : Nat) (h : spec true kids args kwargs = .error (.positional r a g)) :
+    let b := bind ((flatForest kids).map (·.2.1)) args kwargs
+    let acc := summForest (fillForest (fun (d : PDef) (x : Bool × Val) => (d.2, x.2.isSome)) (false, none) kids b.1)
+    r = acc.required ∧ a = acc.allowed ∧ g = args.length + kwargs.length := by
+  intro b acc
+  simp only [spec, finish, Bool.true_and] at h
+  split at h
+  · simp at h
+  · simp only [if_true] at h
+    split at h
+    · split at h <;> simp at h
+    · split at h
+      · simp only [Except.error.injEq, Err.positional.injEq] at h
+        exact ⟨h.1.symm, h.2.1.symm, h.2.2.symm⟩
+      · simp at h
+
+/-! ### Non-vacuity: a 3-deep choice-in-sequence-in-choice forest, a surplus positional, a conflict -/
+
+def demo : List (PT PDef) :=
+  [.node 1 false [.leaf ("a", false),
+     .node 2 true [.leaf ("b", false), .node 3 false [.leaf ("c", true), .leaf ("d", false)],
+                   .node 4 true [.leaf ("e", false)]],
+     .leaf ("f", true)]]
+
+example : PT.wf.wfKids demo ∧ TopOK demo := by
+  refine ⟨?_, Or.inl ?_⟩
+  · simp [demo, PT.wf.wfKids, PT.wf, rootId]
+  · simp [demo, isNode]
+
+example : runForest true demo [some "1", none, some "3", some "4"] [] =
+    .ok ⟨2, 6, [("a", false, some "1"), ("b", true, none), ("c", true, some "3"), ("d", true, some "4"),
+                ("e", true, none), ("f", false, none)]⟩ := by rfl
+example : runForest true demo [some "1", some "2", some "3"] [] = .error .multiChoice := by rfl
+example : runForest true demo (List.replicate 7 (some "x")) [] = .error .multiChoice := by rfl
+example : runForest true demo [some "1", none, none, none, none, none, some "7"] [] =
+    .error (.positional 2 6 7) := by rfl
+example : runForest true demo [some "1"] [("zz", some "1")] = .error (.unexpectedKw "zz") := by rfl
+example : runForest true demo [some "1"] [("a", some "1")] = .error (.multipleValues "a") := by rfl
+
 end Suds.Props.C08
